@@ -16,7 +16,9 @@ fn main() {
         "C04" => run_check(c04::C04, &args),
         "C05" => run_check(c05::C05, &args),
         "C12" => run_check(c12::C12, &args),
+        "C13" => run_check(c13::C13, &args),
         "C14" => run_check(c14::C14, &args),
+        "C15" => run_check(c15::C15, &args),
         "C16" => run_check(c16::C16, &args),
         "C20" => run_check(c20::C20, &args),
         other => {
